@@ -95,8 +95,13 @@ func init() {
 		{"C11", "6.C11", "bounded-virtual-time liveness: deadlines never fire early nor more than 1 s late, no read is still blocked 5 s (virtual) after the bytes it needs were flushed, its deadline passed or the peer's Close returned"},
 		{"C20", "6.C20", "callback mode: bytes consumed inside OnData follow the keyed sequence, OnData is never re-entered per stream, never called after the local Close returned, and after 10 s of virtual silence every flushed byte has been offered"},
 	} {
+		scns := []scenSpec{{Name: "sess", Share: 1}}
+		if c.id == "C09" {
+			// pooled streams being reused (SessionManager / ReleaseReadAndReuse) are part of the property's histories
+			scns = []scenSpec{{Name: "sess", Share: 3}, {Name: "mgr", Share: 1}}
+		}
 		reg(&propSpec{ID: c.id, Level: "exploration", QuickSec: 45, ThoroughSec: 1200, DesignRef: c.ref,
-			Scenarios: []scenSpec{{Name: "sess", Share: 1}}, LevelText: c.text + ". Seeded search over schedules, fault sequences and generated workloads on the real package code; violations minimised and replayed exactly. Sampling, not proof.", Rule: sessRule})
+			Scenarios: scns, LevelText: c.text + ". Seeded search over schedules, fault sequences and generated workloads on the real package code; violations minimised and replayed exactly. Sampling, not proof.", Rule: sessRule})
 	}
 	reg(&propSpec{ID: "C14", Level: "fault_enumeration", QuickSec: 45, ThoroughSec: 1200, DesignRef: "6.C14",
 		Scenarios: []scenSpec{{Name: "sess", Share: 1, Opts: map[string]string{"sweep": "1"}}},
